@@ -219,11 +219,10 @@ func VerifH_C02_QueryTree() {
 		if rt.Choice("has_must_not", 2) == 1 {
 			a := []verifQ{x.term(2), {NewMatchNoneQuery(), 0}, {NewMatchAllQuery(), x.all()}}[rt.Choice("must_not_leaf", 3)]
 			bq.AddMustNot(a.q)
-			// a must-not clause that can match nothing does not make the query match everything
-			if _, none := a.q.(*MatchNoneQuery); !none {
-				bits &^= a.bits
-				any = true
-			}
+			// (a query with nothing but must-not clauses starts from all documents, also when the
+			// clause matches nothing)
+			bits &^= a.bits
+			any = true
 		}
 		if rt.Choice("has_filter", 2) == 1 {
 			a := []verifQ{x.term(0), {NewDocIDQuery([]string{"d1", "d0"}), uint8(0b011) & x.all()}}[rt.Choice("filter_leaf", 2)]
